@@ -408,7 +408,7 @@ class Recorder:
         self.keep.append(obj)
 
     def register_tree(self, obj):
-        """top object -> role '', its panels 'p', stiffeners 's', their panels 'base'/'flange'"""
+        """top object -> role '', its panels 'p1','p2', stiffeners 's', their panels 'base'/'flange'"""
         self.roles.clear()
         del self.keep[:]
         self.register(obj, "")
@@ -419,9 +419,9 @@ class Recorder:
             an = g(obj, "analysis")
         if an is not None:
             self.register(an, "an")
-        for p in d.get("panels", []) or []:
-            self.register(p, "p")
-            self.register(p.__dict__["analysis"], "p.an")
+        for i, p in enumerate(d.get("panels", []) or []):
+            self.register(p, "p%d" % (i + 1))
+            self.register(p.__dict__["analysis"], "p%d.an" % (i + 1))
         for s in d.get("stiffeners", []) or []:
             self.register(s, "s")
             for nm in ("base", "flange"):
@@ -487,7 +487,7 @@ class Lab:
         finally:
             if self.record:
                 reads, writes, rbw = REC.stop()
-                res["reads"], res["writes"], res["rbw"] = sorted(reads), sorted(writes), sorted(rbw)
+                res["writes"], res["rbw"] = sorted(writes), sorted(rbw)
         solver_same = arrays.pop("_solver_same", True)
         after = {k: digest(v) for k, v in arrays.items()}
         res["args_same"] = (after == before) and solver_same
@@ -502,8 +502,7 @@ class Lab:
 
 def _emit(f, rec):
     f.write(json.dumps(rec) + "\n")
-    f.flush()
-    os.fsync(f.fileno())
+    f.flush()          # data handed to the OS survives a crash of the interpreter
 
 
 def _mutate(name):
